@@ -194,3 +194,24 @@ Lemma oti_new_pinned_refuted m :
   oti_validb (2 ^ 32 + 5) 1 1 1 = false /\
   oti_new_pinned m (2 ^ 32 + 5) 1 1 1 1 = Ok (2 ^ 32 + 5, 1, 1, 1, 1).
 Proof. destruct m; vm_compute; split; reflexivity. Qed.
+
+(* ---- the symbols-per-block limit without division (used by kani/src/refs.rs: oti_valid_mul) ---- *)
+Lemma cdiv_le_iff a b c : 0 < b -> (cdiv a b <= c <-> a <= c * b).
+Proof.
+  intros Hb. unfold cdiv.
+  set (q := (a + b - 1) / b).
+  pose proof (N.div_mod (a + b - 1) b ltac:(lia)) as E. fold q in E.
+  pose proof (N.mod_lt (a + b - 1) b ltac:(lia)) as L.
+  set (r := (a + b - 1) mod b) in *.
+  split; intros H.
+  - assert (b * q <= b * c) by (apply N.mul_le_mono_l; exact H). nia.
+  - destruct (N.le_gt_cases q c) as [Hle|Hgt]; [exact Hle|].
+    exfalso. assert (b * (c + 1) <= b * q) by (apply N.mul_le_mono_l; lia). nia.
+Qed.
+
+Lemma valid_division_free F T Z Al : 0 < T -> 0 < Z ->
+  (oti_valid F T Z Al <-> F <= 942574504275 /\ T mod Al = 0 /\ F <= 56403 * Z * T).
+Proof.
+  intros HT HZ. unfold oti_valid.
+  rewrite (cdiv_le_iff _ Z) by exact HZ. rewrite (cdiv_le_iff _ T) by exact HT. reflexivity.
+Qed.
